@@ -454,7 +454,11 @@ def rule_inputs_as_given(rep: Report, repo: Repo, rule: str) -> None:
         it = resolve_locals(direct[0].iter, mfn, skip=frozenset(ns_vars)) if direct else None
         while isinstance(it, ast.Call) and call_name(it) in ("list", "tuple") and len(it.args) == 1 and not it.keywords:
             it = it.args[0]
-        ok = len(direct) == 1 and len(loops) == 1 and isinstance(it, ast.Attribute) and it.attr == "files" \
+        # the positional argument(s) of the parser, whatever they are called
+        positional = {c2.args[0].value for c2 in ast.walk(mfn) if isinstance(c2, ast.Call) and isinstance(c2.func, ast.Attribute)
+                      and c2.func.attr == "add_argument" and c2.args and isinstance(c2.args[0], ast.Constant)
+                      and isinstance(c2.args[0].value, str) and not c2.args[0].value.startswith("-")}
+        ok = len(direct) == 1 and len(loops) == 1 and isinstance(it, ast.Attribute) and it.attr in positional \
             and norm(it.value) in ns_vars
         from ..model import guards_of
         gs = [norm(g.test) for g in guards_of(mfn, c, parents)]
